@@ -16,3 +16,6 @@ pub assume_specification<F: std::str::FromStr>[ str::parse::<F> ](s: &str) -> (r
 pub assume_specification<T, E, F: FnOnce(E) -> T>[ Result::<T, E>::unwrap_or_else ](r: Result<T, E>, f: F) -> (o: T)
     requires r matches Err(e) ==> call_requires(f, (e,)),
     ensures r matches Ok(v) ==> o == v, r matches Err(e) ==> call_ensures(f, (e,), o);
+// std: Option<Option<T>>::flatten (used by partial_version)
+pub assume_specification<T>[ Option::<Option<T>>::flatten ](o: Option<Option<T>>) -> (r: Option<T>)
+    ensures r == (match o { Some(x) => x, None => None::<T> });
